@@ -687,10 +687,17 @@ func runMapRace(c caseIn) *caseOut {
 	return out
 }
 
+var slowSeen atomic.Bool // after the first timed-out wait of this process the remaining waits are short
+
 func waitFor(cond func() bool) bool {
-	deadline := time.Now().Add(10 * time.Second)
+	limit := 5 * time.Second
+	if slowSeen.Load() {
+		limit = 100 * time.Millisecond
+	}
+	deadline := time.Now().Add(limit)
 	for !cond() {
 		if time.Now().After(deadline) {
+			slowSeen.Store(true)
 			return false
 		}
 		time.Sleep(200 * time.Microsecond)
@@ -749,6 +756,10 @@ func runMapSeq(c caseIn) *caseOut {
 		out.Counts = append(out.Counts, [2]int{h.VerifActiveConnCount(), live})
 		if live > out.MaxSeen {
 			out.MaxSeen = live
+		}
+		if got := h.VerifActiveConnCount(); got > live {
+			// no arrival is in flight here: slots may only be held by live tunnels
+			out.fail("mapping-slot-leak", fmt.Sprintf("activeConnCount=%d but only %d tunnels of the mapping are live after %v", got, live, op))
 		}
 		if c.Max > 0 && live > c.Max {
 			out.fail("mapping-cap-live", fmt.Sprintf("MaxConnections=%d but %d tunnels of the mapping are live after %v", c.Max, live, op))
